@@ -7,6 +7,7 @@ import AffVerif.Judge.Hist
 import AffVerif.Judge.C10
 import AffVerif.Judge.C15
 import AffVerif.Judge.C14
+import AffVerif.Judge.C09
 /-! The judge: reads one case per line on stdin, prints one verdict per line. -/
 open AV AV.Judge
 
@@ -19,6 +20,7 @@ def judgeLine (line : String) : String :=
     | "C16" => judgeC16
     | "C12" => judgeC12
     | "C10" => judgeC10
+    | "C09" => judgeC09
     | "C14" => judgeC14
     | "C15" => judgeC15
     | "HIST" => judgeHist
